@@ -2,10 +2,17 @@
    accepts them.  What is proved: (1) the guard re-checked against the regenerated Extracted.v on
    every run — the byte layout, the sentinel defaults and the magic of the current tree equal the
    pinned release's unless the format version differs; (2) any buffer whose version word differs
-   from the reader's is rejected with the version error.  That the two releases' readers answer
-   accepted files identically is established by the cross-release run of the correspondence
-   check (harness mode run-xver, which links the vendored pinned release). *)
-From PG Require Import Base CacheWriter CacheReader CacheBytesProofs GuardFormat.
+   from the reader's is rejected with the version error.  (3) with the pinned release's writer and reader modelled next to the current ones
+   (Pinned.v: the by-params offsets of finding F1, the unchecked line arithmetic of finding F5, each
+   exactly as the snapshot behaved), every file written by either writer from an in-domain mapping is
+   answered by the pinned reader exactly as by the current reader, for every frame query and every
+   line; the pinned writer's file differs from the current one only in the by-params offset words of
+   its class rows, and it parses.  All other queries (class, method, parameters, signature) run the
+   same code in both releases.  That the vendored pinned release itself behaves as its model is
+   established by the cross-release run of the correspondence check (harness mode run-xver, which
+   links the vendored pinned release and compares it with the current tree, which in turn is compared
+   with the current model). *)
+From PG Require Import Base Mapping CacheWriter CacheReader CacheStructDefs CacheBytesProofs CacheProofs Domain GuardFormat Pinned CrossRelease.
 From PG.Gen Require Extracted.
 
 Theorem C10_layout_or_version_bump :
@@ -20,3 +27,32 @@ Proof. exact header_wrong_version. Qed.
 (* every file the current writer produces carries the current version word *)
 Theorem C10_written_version : forall s, nth 1 (header_words s) 0 = cache_version.
 Proof. reflexivity. Qed.
+
+(* files written by the current writer, read by the pinned reader: never a panic, same answer *)
+Theorem C10_current_files_same_answers : forall rs cls m line file, dom32 rs = true ->
+  c_remap_frame_lines_pinned (C rs) cls m line file = Ok (c_remap_frame_lines (C rs) cls m line file).
+Proof. exact CrossRelease.C10_current_files_same_answers_any_line. Qed.
+
+(* files written by the pinned writer: they parse, and both readers answer them identically *)
+Theorem C10_pinned_files_parse : forall rs, struct_wf (write_struct rs) = true ->
+  parse (ser (write_struct_pinned rs)) = POk (Cp rs).
+Proof. exact CrossRelease.C10_pinned_files_parse. Qed.
+Theorem C10_pinned_files_same_answers : forall rs cls m line file, dom32 rs = true ->
+  c_remap_frame_lines_pinned (Cp rs) cls m line file = Ok (c_remap_frame_lines (Cp rs) cls m line file).
+Proof. exact CrossRelease.C10_pinned_files_same_answers_any_line. Qed.
+
+(* the two writers' files differ in nothing but the class rows (the by-params offsets of F1) *)
+Theorem C10_writers_differ_in_class_rows_only : forall rs,
+  cs_members (write_struct_pinned rs) = cs_members (write_struct rs) /\
+  cs_byparams (write_struct_pinned rs) = cs_byparams (write_struct rs) /\
+  cs_strings (write_struct_pinned rs) = cs_strings (write_struct rs).
+Proof. intros rs. destruct (pinned_writer_sections rs) as (Hm & Hb & Hs & _). repeat split; assumption. Qed.
+
+(* outside the domain the releases do differ (F5): the hypothesis is needed *)
+Theorem C10_domain_needed : exists (b : list N) cls m line file,
+  dom32 (recs b) = false /\
+  c_remap_frame_lines_pinned (C (recs b)) cls m line file = Panic /\
+  c_remap_frame_lines (C (recs b)) cls m line file = [].
+Proof.
+  exists map5, [97], [109], 0, None. exact CrossRelease.C10_dom32_needed.
+Qed.
